@@ -11,7 +11,7 @@ build_instr() {
   fi
 }
 
-# build_e1 <name> <extra instr args...> -- <pkgs...> : instruments pkgs and builds checks/<name>
+# build_e1 <name> <extra instr args...> -- <pkgs...> : instruments pkgs and builds checks/<name> (or checks/$E1_SRC) as .work/bin/<name>
 build_e1() {
   local name="$1"; shift
   build_instr
@@ -23,10 +23,10 @@ build_e1() {
     for s in "${_ss[@]}"; do subst+=(-subst "$s"); done
   fi
   "$WORK/bin/instr" -repo "$REPO" -work "$WORK/instr/$name" -overlay "$WORK/$name.overlay.json" "${subst[@]}" "$@" || exit 2
-  (cd "$VERIF_ROOT" && go build -tags verif -overlay "$WORK/$name.overlay.json" -o "$WORK/bin/$name" "./checks/$name") || exit 2
+  (cd "$VERIF_ROOT" && go build -tags verif -overlay "$WORK/$name.overlay.json" -o "$WORK/bin/$name" "./checks/${E1_SRC:-$name}") || exit 2
 }
 
 # every instrumented package of the tars tree (tools/ and protocol/res excluded)
 TARS_PKGS="tars tars/model tars/protocol tars/protocol/push tars/registry tars/registry/tars tars/selector tars/selector/consistenthash tars/selector/modhash tars/selector/random tars/selector/roundrobin tars/transport tars/util/current tars/util/gpool tars/util/grace tars/util/gtime tars/util/rogger tars/util/rtimer tars/util/sync tars/util/tools tars/util/trace"
 # instrumenter arguments for checks that run the whole (instrumented) tars tree
-TARS_E1_ARGS="-osfiles tars/panic.go -adddir $VERIF_ROOT/harness/tars=tars -adddir $VERIF_ROOT/harness/rtimer=tars/util/rtimer -adddir $VERIF_ROOT/harness/transport=tars/transport -adddir $VERIF_ROOT/harness/roundrobin=tars/selector/roundrobin -adddir $VERIF_ROOT/harness/rogger=tars/util/rogger $TARS_PKGS"
+TARS_E1_ARGS="-osfiles tars/panic.go -adddir $VERIF_ROOT/harness/tars=tars -adddir $VERIF_ROOT/harness/rtimer=tars/util/rtimer -adddir $VERIF_ROOT/harness/transport=tars/transport -adddir $VERIF_ROOT/harness/roundrobin=tars/selector/roundrobin -adddir $VERIF_ROOT/harness/rogger=tars/util/rogger -adddir $VERIF_ROOT/harness/gtime=tars/util/gtime $TARS_PKGS"
